@@ -12,7 +12,8 @@ TRUSTED = ["table translator (Generated/Schema.lean: parameters, annotation kind
 def run(ctx, intensify=False):
     res = PropResult()
     names = kvalid.OBJ_NAMES
-    shards = [(ctx.seed, [n], "assign") for n in names] + [(ctx.seed, [n], "construct") for n in names]
+    shards = ([(ctx.seed, [n], "assign") for n in names] + [(ctx.seed, [n], "construct") for n in names]
+              + [(ctx.seed + 2, [n], "noop-first") for n in names])
     if ctx.tier == "thorough" or intensify:
         shards += [(ctx.seed + 1, [n], "grouped") for n in names]
     outs = ctx.pmap(kvalid.shard, shards)
